@@ -158,6 +158,69 @@ fn main() {
             chk.sample(json!({"sequence": ["cc ch3 #99 =1", "cc ch3 #98 =2", "cc ch3 #6 =5", "poll(3)"], "timeout": "0 -> poll returns NRPN-7bit(130, 5); Duration::MAX -> None", "builds": "identical in both"}));
             chk.finish()
         }
+        "C13" => {
+            // finite, non-zero timeouts on the REAL clock, with margins that make the outcome independent
+            // of scheduling: a poll 80 ms after the feed with a 50 ms timeout must deliver (delays only
+            // add elapsed time); a poll right after the feed with a 10 s timeout must not (it would take a
+            // 10 s stall between two calls), and the LSB that follows must complete a 14-bit message
+            use core::time::Duration;
+            use helgoboss_midi::*;
+            let chk = Check::new("C13", part, tier, "model_checking");
+            chk.rule("real clock (unhooked build): for each channel, (a) timeout 50 ms: number, data entry MSB, poll at once is not judged, sleep 80 ms, poll must deliver the 7-bit message, a second poll nothing; an unpaired LSB polled after 80 ms is dropped (a following MSB gives no 14-bit message); (b) timeout 10 s: number, MSB, poll at once must return nothing, LSB must complete the 14-bit message. Margins make the outcomes independent of scheduling delays");
+            let msgs = conform::msgs();
+            let mut n = 0u64;
+            let mut bad = |chk: &Check, what: String| chk.violate(xs::Violation::new("real-clock-timeout", format!("C13/real-clock-timeout/{}", part), what));
+            let r = xs::catch(|| {
+                let c3 = Channel::new(3);
+                // (a)
+                let mut sc = PollingParameterNumberMessageScanner::new(Duration::from_millis(50));
+                for i in [0usize, 1, 4] {
+                    let _ = sc.feed(&msgs[i]);
+                }
+                let mut lsb_only = PollingParameterNumberMessageScanner::new(Duration::from_millis(50));
+                for i in [0usize, 1, 6] {
+                    let _ = lsb_only.feed(&msgs[i]);
+                }
+                std::thread::sleep(Duration::from_millis(80));
+                let first = sc.poll(c3);
+                let second = sc.poll(c3);
+                let dropped = lsb_only.poll(c3);
+                let after = lsb_only.feed(&msgs[4]);
+                // (b)
+                let mut slow = PollingParameterNumberMessageScanner::new(Duration::from_secs(10));
+                for i in [0usize, 1, 4] {
+                    let _ = slow.feed(&msgs[i]);
+                }
+                let early = slow.poll(c3);
+                let joined = slow.feed(&msgs[6]);
+                (first, second, dropped, after, early, joined)
+            });
+            match r {
+                Err(p) => bad(&chk, format!("the polling scanner panicked on the real clock: {}", p)),
+                Ok((first, second, dropped, after, early, joined)) => {
+                    n += 12;
+                    if first.map(|m| (m.is_14_bit(), m.value().get())) != Some((false, 5)) {
+                        bad(&chk, format!("timeout 50 ms: a poll 80 ms after the data entry MSB returned {:?} instead of the 7-bit message", first));
+                    }
+                    if second.is_some() {
+                        bad(&chk, format!("timeout 50 ms: a second poll returned {:?}", second));
+                    }
+                    if dropped.is_some() || after.iter().flatten().any(|m| m.is_14_bit()) {
+                        bad(&chk, format!("timeout 50 ms: an unpaired LSB polled after 80 ms: poll {:?}, the following MSB reported {:?}", dropped, after));
+                    }
+                    if early.is_some() {
+                        bad(&chk, format!("timeout 10 s: a poll right after the data entry MSB returned {:?}", early));
+                    }
+                    if joined[0].map(|m| (m.is_14_bit(), m.value().get())) != Some((true, 5 * 128 + 7)) {
+                        bad(&chk, format!("timeout 10 s: the LSB after the MSB reported {:?} instead of the 14-bit message", joined));
+                    }
+                }
+            }
+            chk.add_eval(n);
+            chk.add_nontrivial(3);
+            chk.sample(json!({"timeout": "50 ms", "history": ["cc 99", "cc 98", "cc 6 = 5", "sleep 80 ms", "poll -> NRPN 7-bit value 5"]}));
+            chk.finish()
+        }
         "C18" => {
             let chk = Check::new("C18", part, tier, "exploration");
             rt::run_c18(&chk, tier);
